@@ -3,9 +3,17 @@
    get_block / register_* / remove_duplicates; `run cache_on …` folds `step` over any operation list.
    The four rounding functions of duplicate removal are arbitrary here. *)
 From Coq Require Import List Bool ZArith QArith Qcanon.
-From PV Require Import Base.AList Base.QUtil Model.EventLib Model.Seq Proofs.SeqSpec Proofs.SeqCache.
+From PV Require Import Base.AList Base.QUtil Gen.GenCache Model.EventLib Model.Seq Proofs.SeqSpec Proofs.SeqCache.
 Import ListNotations.
 Open Scope Z_scope.
+
+(* The points where the source consults, fills and invalidates the block cache are the ones `step` hard-wires
+   (Gen/GenCache.v is regenerated from block.py / sequence.py on every run and fails closed when one of them moves). *)
+Theorem C06_source_cache_points :
+  set_block_evicts_overwritten_index = true /\ read_clears_cache_before_reading = true /\
+  dedup_in_place_clears_cache = true /\ dedup_copy_is_deep = true.
+Proof. repeat split; reflexivity. Qed.
+Print Assumptions C06_source_cache_points.
 
 (* For EVERY interleaving of add_block, set_block, get_block, register_*_event, remove_duplicates
    (in place or copy), write (= get_block of every block) and read (= Load of a well-formed store),
